@@ -145,7 +145,7 @@ class Summary:
 
 VIEW_FUNCS = {  # result may alias the first argument
     "numpy.asarray", "numpy.asanyarray", "numpy.ascontiguousarray", "numpy.atleast_1d", "numpy.atleast_2d",
-    "numpy.reshape", "numpy.ravel", "numpy.transpose", "numpy.squeeze", "numpy.broadcast_arrays",
+    "numpy.asarray_chkfinite", "numpy.reshape", "numpy.ravel", "numpy.transpose", "numpy.squeeze", "numpy.broadcast_arrays",
     "numpy.broadcast_to", "numpy.real", "numpy.imag", "numpy.swapaxes", "numpy.diagonal", "numpy.expand_dims",
     "numpy.moveaxis", "numpy.flipud", "numpy.fliplr", "numpy.flip", "numpy.rollaxis", "numpy.nan_to_num",
     "numpy.array_split", "numpy.split", "numpy.hsplit", "numpy.vsplit", "numpy.asfarray", "numpy.require",
